@@ -867,11 +867,40 @@ class Interp(object):
                     v = True
                 else:
                     return None
+            elif isinstance(l, (list, tuple)) and isinstance(r, (list, tuple)) and type(l) is type(r) and \
+                    (any(isinstance(x, Obj) for x in l) or any(isinstance(x, Obj) for x in r)):
+                # sequences holding objects: element by element, as Python does (identity first, then ==)
+                if len(l) != len(r):
+                    v = False
+                else:
+                    v = True
+                    for a, b in zip(l, r):
+                        if a is b:
+                            continue
+                        e = self.cmp(ast.Eq(), a, b, frame)
+                        if e is None:
+                            return None
+                        if not e:
+                            v = False
+                            break
             elif isinstance(l, Obj) or isinstance(r, Obj):
                 if l is r:
                     v = True
                 elif l is None or r is None:
                     v = False
+                elif isinstance(l, Obj) and self.repo.has_cls(l.cls) and frame is not None and \
+                        self.repo.method(l.cls, '__eq__', required=False) is not None and not isinstance(r, (Top, Sym)):
+                    # the class defines equality: fold it
+                    m = self.repo.method(l.cls, '__eq__')
+                    res = self.call_function(m, [l, r], {}, ast.Compare(left=ast.Constant(value=None), ops=[ast.Eq()], comparators=[]), frame)
+                    t = self.truth(res)
+                    if t is None:
+                        return None
+                    v = t
+                elif isinstance(l, Obj) and isinstance(r, Obj) and self.repo.has_cls(l.cls) and self.repo.has_cls(r.cls) and \
+                        self.repo.method(l.cls, '__eq__', required=False) is None and self.repo.method(r.cls, '__eq__', required=False) is None \
+                        and l.cls != 'slice' and r.cls != 'slice':
+                    v = False       # two distinct instances of classes without __eq__: identity
                 elif isinstance(l, Obj) and isinstance(r, Obj) and l.cls == r.cls == 'slice':
                     parts = [(l.fields.get(k), r.fields.get(k)) for k in ('start', 'stop', 'step')]
                     if any(_has_abstract(a) or _has_abstract(b) for a, b in parts):
@@ -1134,7 +1163,14 @@ class Interp(object):
             return v
         return self.ev(f, frame)
 
+    PURE_OS_PATH = ('splitext', 'basename', 'dirname', 'join', 'split', 'normpath', 'isabs', 'relpath', 'commonprefix')
+
     def apply(self, text, callee, args, kwargs, node, frame):
+        if text.startswith('os.path.') and text[8:] in self.PURE_OS_PATH and not kwargs and args and all(isinstance(a, str) for a in args) \
+                and text[8:] != 'relpath':
+            import os as _os
+            r = getattr(_os.path, text[8:])(*args)
+            return r
         if isinstance(callee, FuncRef):
             a = list(callee.pre_args) + list(args)
             if callee.bound is not None:
@@ -2093,9 +2129,9 @@ class Interp(object):
             n_here += 1
             if n_here > self.MAX_PATHS:
                 raise PathLimit('more than %d paths (%s)' % (self.MAX_PATHS, label))
-            frame = make_frame()
             path = Path(seq)
             self.path = path
+            frame = make_frame()
             self.frame_stack = [frame]
             try:
                 c = self.block(body, frame)
@@ -2120,6 +2156,23 @@ class Interp(object):
         def mk():
             f = Frame(fi, fi.module, sc, 0)
             f.locals.update(make_locals())
+            # parameters the rule did not script take their declared defaults (a parameter added with a default is not a new obligation)
+            nd = len(fi.defaults)
+            for i, p in enumerate(fi.params):
+                if p not in f.locals:
+                    di = i - (len(fi.params) - nd)
+                    if di >= 0:
+                        try:
+                            f.locals[p] = self.ev(fi.defaults[di], Frame(fi, fi.module, sc, 0))
+                        except Raise:
+                            pass
+            kwd = getattr(fi.node.args, 'kw_defaults', [])
+            for p, d in zip(fi.kwonly, kwd):
+                if p not in f.locals and d is not None:
+                    try:
+                        f.locals[p] = self.ev(d, Frame(fi, fi.module, sc, 0))
+                    except Raise:
+                        pass
             return f
 
         return self.run_paths(fi.node.body, mk, label or fi.qualname)
